@@ -7,7 +7,7 @@ different technique); whether the seeded variants pass the suite was established
 
 A mutant whose anchor text no longer occurs in the current tree (because /repo was edited) is skipped and reported, not failed.
 
-Second half (the other direction): every behaviour-preserving refactoring kept in /verif/refactorings/<id>/patch.diff (written by
+Second half (the other direction): every behaviour-preserving refactoring kept in /verif/refactorings*/<id>/patch.diff (written by
 independent agents, suite-neutral, see meta.json) is applied to a scratch copy as well; the property's rules must stay silent there -
 no violation and no "cannot classify". A refactoring listed in refactorings/EXPECTED_UNDECIDED.json for this property may end in
 "undecided" (exit 2 of a quick run), never in a violation.
@@ -39,10 +39,12 @@ def _load_mutants(pid: str) -> list[dict]:
     for extra in sorted((HERE / "mutants").glob(f"{pid.lower()}_*.py")):
         out += list(importlib.import_module(f"mutants.{extra.stem}").MUTANTS)
     # seeded changes collected from independent sub-agents (seeded/<id>/patch.diff + meta.json)
-    seeded = VERIF / "seeded"
-    if seeded.is_dir():
-        import json
+    # (all rounds: seeded/, seeded_r3/ ... - detected_by is refreshed by tools/seed_matrix.py)
+    import json
 
+    for seeded in sorted(VERIF.glob("seeded*")):
+        if not seeded.is_dir():
+            continue
         for d in sorted(seeded.iterdir()):
             meta = d / "meta.json"
             if not meta.exists():
@@ -108,8 +110,10 @@ def _run_one(args: tuple[str, dict, str]) -> dict:
 
 def _load_refactorings() -> list[dict]:
     out = []
-    d = VERIF / "refactorings"
-    if d.is_dir():
+    # all corpora of behaviour-preserving refactorings: refactorings/, refactorings_heldout/, refactorings_heldout2/ ...
+    for d in sorted(VERIF.glob("refactorings*")):
+        if not d.is_dir():
+            continue
         for r in sorted(d.iterdir()):
             if (r / "patch.diff").exists() and (r / "meta.json").exists():
                 out.append({"id": f"refac:{r.name}", "patch": str(r / "patch.diff")})
